@@ -263,6 +263,33 @@ from mirsym.executor import PyObj, Unsupported     # noqa: E402
 from mirsym.values import Enum                      # noqa: E402
 
 
+def _native_channel(ex, rx, n):
+    """real ChannelSource with a slow producer: a model schedule in which the source runs out of polls before an item
+    arrives (any number of empty polls: the real source spins through its retries in microseconds) becomes a 100 ms pause before that item; the oracle is the observable consequence:
+    a FlushBatch between the previous item and an item that arrived after such a pause"""
+    from mirsym.explore import Violation
+    delays = []
+    for i in range(n):
+        k = [0, 1, 8, 9, 10][ex.choose(5, 'polls while empty')]
+        delays.append(100 if k >= 1 else 0)
+    k = [0, 1, 8, 9, 10][ex.choose(5, 'polls while empty')]
+    delays.append(100 if k >= 1 else 0)       # pause before the channel is closed
+    runner, prof = ex.env['native']
+    ex.env['native_used'] = True
+    txt = runner('channel_source', [n] + delays)[prof]
+    ex.env['native_out'] = txt
+    toks = txt.split()
+    if [t for t in toks if t.startswith('I(')] != ['I(%d)' % (i + 1) for i in range(n)] or toks[-2:] != ['F', 'E']:
+        raise Violation('ChannelSource output is not all items once, then FlushAndRestart, Terminate: ' + txt)
+    for i in range(n + 1):
+        if delays[i] > 0:
+            j = toks.index('I(%d)' % (i + 1)) if i < n else len(toks) - 2
+            if j == 0 or toks[j - 1] != 'B':
+                raise Violation('ChannelSource blocks on the channel without having emitted FlushBatch after the last item: '
+                                'buffered elements downstream are withheld (native output: %s)' % txt)
+    return {'native': txt}
+
+
 def channel_source_harness(w, n):
     from mirsym import hlib
     from mirsym.values import Ref
@@ -271,6 +298,8 @@ def channel_source_harness(w, n):
 
     def h(ex):
         rx = ChanRx([Int('u64', i + 1) for i in range(n)])
+        if ex.env.get('native'):
+            return _native_channel(ex, rx, n)
         src = hlib.mk_struct(w, 'ChannelSource', rx=rx, terminated=False, retry_count=Int('u8', 0))
         holder = [src]
         out = []
